@@ -13,11 +13,28 @@ pub enum Form {
     AsyncFn,
     ManualFuture,
     GuardAsync,
+    /// the span's OWN frame (from `new_span!`) is moved to a fresh thread and entered there with
+    /// `frame.call(..)`; the guard is started and completed there
+    HandoffCall,
+    /// `thread::spawn(frame.in_fn(..))` with the span's own frame
+    HandoffInFn,
+    /// the span's own frame is entered on a fresh thread (`frame.enter()`), the guard is started there,
+    /// comes back with the frame and is completed on the parent thread inside `frame.enter()` again
+    HandoffEnterBack,
+    /// `frame.in_future(async move { .. })` with the span's own frame, whose polls alternate between fresh
+    /// threads and the awaiting thread (a task of its own on a work-stealing runtime)
+    HandoffFuture,
 }
 
 impl Form {
     pub fn is_async(self) -> bool {
-        matches!(self, Form::AsyncFn | Form::ManualFuture | Form::GuardAsync)
+        matches!(self, Form::AsyncFn | Form::ManualFuture | Form::GuardAsync | Form::HandoffFuture)
+    }
+    pub fn is_sync_handoff(self) -> bool {
+        matches!(self, Form::HandoffCall | Form::HandoffInFn | Form::HandoffEnterBack)
+    }
+    pub fn is_handoff(self) -> bool {
+        self.is_sync_handoff() || self == Form::HandoffFuture
     }
 }
 
@@ -127,6 +144,8 @@ pub struct PNode {
     pub form: Form,
     pub mdl: &'static str,
     pub items: Vec<PItem>,
+    /// synchronous hand-off forms: check on the far thread right after the span's frame was left there
+    pub far_end: Option<usize>,
     pub post: usize,
 }
 
@@ -197,8 +216,9 @@ impl Numberer {
                 let id = self.nodes;
                 self.nodes += 1;
                 let items = self.items(&n.items);
+                let far_end = if n.form.is_sync_handoff() { Some(self.check()) } else { None };
                 let post = self.check();
-                PItem::Span(PNode { id, form: n.form, mdl: mdl_name(id), items, post })
+                PItem::Span(PNode { id, form: n.form, mdl: mdl_name(id), items, far_end, post })
             }
             Item::Push { header, via, items } => {
                 let id = self.pushes;
